@@ -262,10 +262,8 @@ func (h *helpSide) exec(o helpOp) (r result, post []string) {
 		return result{Res: fsx.Res{Kind: k, Msg: msg}, Fam: k}, nil
 	}
 
-	r = result{Res: fsx.Res{Kind: fsx.ErrKind(err), Val: val}, Fam: family(err)}
+	r = errResult(val, err)
 	if err != nil {
-		r.Msg = err.Error()
-
 		return r, nil
 	}
 
